@@ -290,9 +290,81 @@ fn programs(ctx: &mut Ctx) {
     }
 }
 
+/// Repeated application: every registered instruction 60 times in a row on ONE evolving small
+/// state (small operands topped up between the steps). What a single step cannot show - capacity
+/// that doubles with every call, history that accumulates - shows as one step's allocation or CPU time
+/// out of proportion to the state it ran on.
+fn repeated(ctx: &mut Ctx) {
+    let (mut is, names) = new_iset();
+    let cache = sorted_cache(&is);
+    let mut case: u64 = 3_000_000;
+    for name in names.iter() {
+        if name.contains("RAND") || name.ends_with(".ONES") || name.ends_with(".ZEROS") || name == "FLOATVECTOR.SINE" || name.starts_with("LIST.NEIGHBOR") {
+            continue; // operand-sized by documentation (known findings of the single-step probes)
+        }
+        case += 1;
+        if !ctx.mine(case) {
+            continue;
+        }
+        let s = tiny_state();
+        let mut st = build_state(&s);
+        for rep in 0..60u64 {
+            // top up small operands so that the instruction keeps firing
+            while st.int_stack.size() < 4 {
+                st.int_stack.push(1 + (rep % 3) as i32);
+            }
+            while st.float_stack.size() < 4 {
+                st.float_stack.push(0.5);
+            }
+            if st.bool_stack.size() < 2 {
+                st.bool_stack.push(rep % 2 == 0);
+            }
+            if st.name_stack.size() < 3 {
+                st.name_stack.push(format!("n{}", rep % 4));
+            }
+            if st.exec_stack.size() < 2 {
+                st.exec_stack.push(Item::int(4));
+            }
+            if st.code_stack.size() < 2 {
+                st.code_stack.push(Item::list(vec![Item::int(1), Item::bool(true)]));
+            }
+            let pre = Snap::of(&st);
+            if pre.approx_bytes() > (4 << 20) {
+                break; // the state itself has grown large (legitimately, e.g. by doubling): stop here
+            }
+            let b = bound(&pre);
+            ctx.rec.case_marker(case, &format!("{}|repeated :: application {} state {}", name, rep, pre.summary().chars().take(300).collect::<String>()));
+            st.exec_stack.push(Item::instruction(name.clone()));
+            let a0 = alloc::mark();
+            let c0 = proc_cpu_us();
+            STEP_START_CPU.store(c0.max(1), Ordering::Relaxed);
+            let res = guarded(|| PushInterpreter::step(&mut st, &mut is, &cache));
+            STEP_START_CPU.store(0, Ordering::Relaxed);
+            let cpu_us = proc_cpu_us() - c0;
+            let req = alloc::stats().requested - a0.requested;
+            ctx.rec.count("steps", 1);
+            ctx.rec.count("repeated_application_steps", 1);
+            if res.is_err() {
+                break; // crashes are C01's business
+            }
+            if req > b {
+                ctx.rec.violation("C15", &format!("{}|repeated|mem", name), &format!("application {} of {} requested {} bytes on a state of ~{} bytes (bound {}) ; state {}", rep, name, req, pre.approx_bytes(), b, pre.summary().chars().take(400).collect::<String>()), "");
+                break;
+            }
+            if cpu_us > 100_000 {
+                ctx.rec.violation("C15", &format!("{}|repeated|time", name), &format!("application {} of {} burned {:.2} s CPU on a state of ~{} bytes", rep, name, cpu_us as f64 / 1e6, pre.approx_bytes()), "");
+                break;
+            }
+        }
+        ctx.rec.cover(&format!("repeated|{}", name));
+    }
+}
+
 pub fn run(ctx: &mut Ctx) {
     start_watchdog(if ctx.quick() { 3.0 } else { 10.0 });
     steps(ctx);
+    ctx.rec.checkpoint();
+    repeated(ctx);
     ctx.rec.checkpoint();
     programs(ctx);
     ctx.rec.checkpoint();
